@@ -760,6 +760,14 @@ func EnableWeakCiphers() {
 		{DISABLED_TLS_ECDHE_RSA_WITH_AES_256_CBC_SHA384, 32, 48, 16, ecdheRSAKA,
 			suiteECDHE | suiteTLS12 | suiteSHA384, cipherAES, utlsMacSHA384, nil},
 	}...)
+	// Keep the legacy ChaCha20 code points that init() registers: rebuilding the
+	// list from cipherSuites alone would silently drop them.
+	utlsSupportedCipherSuites = append(utlsSupportedCipherSuites, []*cipherSuite{
+		{OLD_TLS_ECDHE_RSA_WITH_CHACHA20_POLY1305_SHA256, 32, 0, 12, ecdheRSAKA,
+			suiteECDHE | suiteTLS12, nil, nil, aeadChaCha20Poly1305},
+		{OLD_TLS_ECDHE_ECDSA_WITH_CHACHA20_POLY1305_SHA256, 32, 0, 12, ecdheECDSAKA,
+			suiteECDHE | suiteECSign | suiteTLS12, nil, nil, aeadChaCha20Poly1305},
+	}...)
 }
 
 func mapSlice[T any, U any](slice []T, transform func(T) U) []U {
